@@ -133,6 +133,14 @@ def gen_cases(rng, tier):
         if not all(int(float(r) * n) == math.floor(r * n) for n in (npos, nneg)):
             r = Fraction(1, 4)
         cases.append(_case(rng, npos, nneg, "proportion", rng.choice([None, "by_label"]), ratio=r, distinct=True))
+    # ... and scores with many ties inside each class (values from a small pool): the sample still has the requested size
+    for _ in range(12 * mult):
+        npos, nneg = rng.randint(4, 12), rng.randint(4, 12)
+        c = _case(rng, npos, nneg, "proportion", strat3(), ratio=rng.choice([Fraction(1, 2), Fraction(1, 4), Fraction(3, 4)]))
+        pool = [Fraction(rng.randint(-3, 3)) for _ in range(3)]
+        c["pos"] = [enc(rng.choice(pool)) for _ in range(npos)]
+        c["neg"] = [enc(rng.choice(pool) + 1) for _ in range(nneg)]
+        cases.append(c)
     cases.append(_case(rng, 4, 4, "proportion", None, ratio=None))
     cases.append(_case(rng, 5, 3, "proportion", None, ratio=Fraction(1), distinct=True))
     # F. callable / unsupported
